@@ -343,9 +343,12 @@ def parse_tlc(out):
     r["rejects"] = sorted(set(r["rejects"]))
     if re.search(r"Postcondition \S+ .*is false", out) or ("POSTCONDITION" in out and "violated" in out):
         r["posterr"] = True
-    m = re.search(r"Invariant (\S+) is violated", out)
+    # with several workers either an invariant or an action property may be reported first
+    m = re.search(r"Invariant (\S+) is violated", out) or re.search(r"Action property (\S+) is violated", out)
     if m:
         r["invariant"] = m.group(1)
+    elif "Temporal properties were violated" in out:
+        r["invariant"] = "(temporal property)"
     if re.search(r"Error: (TLC threw|Evaluating|The first argument|Attempted|In evaluation|TLC encountered|An|Overflow)", out) and not r["invariant"] and not r["posterr"]:
         r["evalerr"] = True
     for m in re.finditer(r'<<\s*"OUT",(.*?)>>\s*(?=<<\s*"OUT"|$|[A-Z])', flat):
